@@ -628,7 +628,9 @@ def run(ctx):
     ctx.trusted += ['harness/props/c17.py:extract (python ast -> FactsC17.v: initial keys of the lookup table, sort_keys flag)',
                     'hashlib digests assumed collision-free (Section hypothesis H_inj of verify_recorded_iff_same/digest_value_sensitive)',
                     'jsonpatch library and pyhf.Workspace schema validation are used as oracles for the apply step (not modelled)']
-    ctx.assumptions += ['json.dumps is injective on canonical trees; SHA/MD5 collision freeness']
+    ctx.assumptions += ['json.dumps is injective on canonical trees; SHA/MD5 collision freeness',
+                        'text is modelled by its UTF-8 byte string (PV.Json strings are byte lists): equality and ordering of Python str agree with those of '
+                        'the UTF-8 encodings for well-formed text (no lone surrogates are generated); no Unicode equivalence is part of the model or the property']
     found_concrete = False
 
     # ---- correspondence 1: construction and lookup, model evaluated in Coq ----
@@ -782,6 +784,11 @@ def run(ctx):
         handed = copy.deepcopy(c['ws'])
         got, exp, mut = impl_apply(c)
         astats[got[0]] = astats.get(got[0], 0) + 1
+        astats['non_ascii_workspaces'] = astats.get('non_ascii_workspaces', 0) + has_non_ascii(handed)
+        sel_ops = [o['op'] for p_ in c['doc0']['patches'] for o in p_['patch']
+                   if (c['key'][0] == 'name' and p_['metadata']['name'] == c['key'][1]) or (c['key'][0] != 'name' and tuple(p_['metadata']['values']) == tuple(c['key'][1]))]
+        for o in sel_ops:
+            astats['op:' + o] = astats.get('op:' + o, 0) + 1
         if mut:
             ctx.violation('apply-mutates-input', 'apply modified the background workspace',
                           dict(kind='apply', impl=dict(outcome=got[0], workspace_after_the_call=c['ws']), expected='workspace untouched',
@@ -879,9 +886,14 @@ def run(ctx):
         if not search(ctx, tie):
             ctx.violation('tie-broken', tie[:300], dict(kind='tie', detail=tie, theorem='props/C17.v'), nofail=True)
     ctx.coverage.update(evaluations=len(docs) + len(vcases) + len(acases), distinct_nontrivial=len(sigs),
-                        rule='documents: 1-3 labels, 1-6 patches, names from a pool incl. internal words, value tuples from a pool with 1/1.0 '
-                             'and strings, 7% wrong lengths; non-trivial = >=2 patches or an internal-word name; distinct by full metadata. '
-                             'verify cases: key shuffles and single-leaf corruptions of random JSON trees; apply cases: real workspaces x op lists x keys',
+                        rule='documents: 1-3 labels, 1-6 patches, names from a pool incl. internal words and names differing in case only, value tuples '
+                             'from a pool with 1/1.0 and strings (a third of the documents with non-ASCII strings and equivalent spellings of them), 7% wrong '
+                             'lengths; non-trivial = >=2 patches or an internal-word name; distinct by full metadata. '
+                             'verify cases: key shuffles and single-leaf corruptions of random JSON trees, half of them with non-ASCII text (precomposed / '
+                             'combining / compatibility / non-BMP characters) as values and keys, text corruptions by another normal form, case, look-alike or '
+                             'invisible characters; digests compared with the hash of the canonical dump and verification repeated against digests recorded by '
+                             'pyhf.utils.digest itself; apply cases: real workspaces (40% relabelled with non-ASCII names) x op lists (fixed pool incl. move '
+                             'across sections + random RFC-6902 lists over all six operations) x keys',
                         construct_stats=stats, verify_stats=vstats, apply_stats=astats, history_stats=hstats,
                         samples=[dict(doc_patches=[p['metadata'] for p in docs[0]['patches']], keys=keys[0][:5], impl=impl[0]),
                                  dict(verify_case=vcases[1][3], ws=vcases[1][2], impl=vimpl[1][0])])
